@@ -2,7 +2,11 @@
 """Builds /verif/mutants/<prop>-<name>.diff: the hand-written property-breaking patches of DESIGN
 section 3 ("sensitivity patches"), each a small string replacement, kept only if the crate still
 compiles and the 403 stable tests still pass with it. Works in a scratch worktree under /tmp,
-removed afterwards. Usage: make_mutants.py [name-filter]"""
+removed afterwards. Usage: make_mutants.py [name-filter]
+
+The *-revert-fix-*.diff files next to them are not made here: each is the reverse of one "fix:" commit
+of /repo (`git -C /repo diff <fix> <fix>^`), kept so that `./check selftest mutants` shows the check
+reports the repaired defect again if it ever returns."""
 import os, subprocess, sys, json
 
 SCRATCH = "/tmp/verif-mkmut"
@@ -73,6 +77,9 @@ M = [
     ("C16-name-hash-randomstate", "src/namer.rs",
      "    let mut hasher = DefaultHasher::new();",
      "    let mut hasher = std::hash::BuildHasher::build_hasher(&std::collections::hash_map::RandomState::new());\n    let _ = DefaultHasher::new();"),
+    ("C16-render-drops-parens-additive-right", "src/dialect_translation/mod.rs",
+     "fn binary_op_builder(left: ast::Expr, op: ast::BinaryOperator, right: ast::Expr) -> ast::Expr {\n    ast::Expr::BinaryOp {\n        left: Box::new(ast::Expr::Nested(Box::new(left))),\n        op,\n        right: Box::new(ast::Expr::Nested(Box::new(right))),\n    }\n}",
+     "fn binary_op_builder(left: ast::Expr, op: ast::BinaryOperator, right: ast::Expr) -> ast::Expr {\n    // additive chains need no parentheses\n    let additive = |o: &ast::BinaryOperator| matches!(o, ast::BinaryOperator::Plus | ast::BinaryOperator::Minus);\n    let flat = additive(&op) && matches!(&right, ast::Expr::BinaryOp { op: o, .. } if additive(o));\n    ast::Expr::BinaryOp {\n        left: Box::new(ast::Expr::Nested(Box::new(left))),\n        op,\n        right: Box::new(if flat { right } else { ast::Expr::Nested(Box::new(right)) }),\n    }\n}"),
     ("C16-join-names-from-counter", "src/relation/builder.rs",
      "            .unwrap_or(namer::name_from_content(JOIN, &self));",
      "            .unwrap_or(namer::new_name(JOIN));"),
@@ -90,6 +97,8 @@ def main():
     r = sh("git -C /repo worktree add -q --detach %s HEAD" % SCRATCH)
     assert r.returncode == 0, r.stderr
     report = {}
+    if flt and os.path.exists(os.path.join(OUT, "REPORT.json")):
+        report = json.load(open(os.path.join(OUT, "REPORT.json")))
     try:
         for name, path, old, new in M:
             if flt and flt not in name:
